@@ -125,6 +125,14 @@ def record(lentil, tier, seed):
                 waves_2 = [Fr(w) * f2 for w in wave_nm]
                 out2 = d.collect_charge(ph, [float(w) for w in waves_2], qs, waveunit=unit2)
                 add(dict(base, wave=[sp.rj(w) for w in waves_2], wexp=sp.EXP[unit2], qe=sj, out=rmat(out2)))
+                # ... and the owner of the efficiency curve then assigns it new values (a recalibration: same grid, other numbers); the
+                # next collection, in whatever unit, uses the curve as it is now
+                sv3 = [Fr(rng.randint(0, 8), 8) for _ in sw]
+                qs.value = np.array([float(x) for x in sv3])
+                sj3 = sp.spec_json(sunit, None, [x * g for x in sw], sv3)
+                for un3, wv3 in ((unit2, waves_2), (unit, waves_u)):
+                    out3 = d.collect_charge(ph, [float(w) for w in wv3], qs, waveunit=un3)
+                    add(dict(base, wave=[sp.rj(w) for w in wv3], wexp=sp.EXP[un3], qe=sj3, out=rmat(out3)))
         except OverflowError:
             continue
     # ---- Bayer ------------------------------------------------------------------------------------------------------
@@ -141,6 +149,15 @@ def record(lentil, tier, seed):
         waves = list(range(500, 500 + nw))
         qs = [[dy() for _ in range(nw)] for _ in range(3)]
         fq = [[float(x) for x in qv] for qv in qs]
+        same = rng.random() < 0.25
+        if same:
+            # ONE efficiency object handed to two or three channels (a panchromatic sensor behind a colour filter model): equal values
+            which = rng.choice(((0, 1), (1, 2), (0, 2), (0, 1, 2)))
+            for k_ in which[1:]:
+                qs[k_] = qs[which[0]]
+            fq = [[float(x) for x in qv] for qv in qs]
+            shared = np.array(fq[which[0]])
+            fq = [shared if k_ in which else fq[k_] for k_ in range(3)]
         try:
             flat = d.collect_charge_bayer(ph, waves, fq[0], fq[1], fq[2], pat, oversample=os_)
             ch = d.collect_charge_bayer(ph, waves, fq[0], fq[1], fq[2], pat, oversample=os_, flatten=False)
@@ -185,8 +202,20 @@ def record(lentil, tier, seed):
             gj, greal = sp.rj(gain), float(gain)
             sat = Fr(4 * int(e[rng.randrange(m), rng.randrange(n)]) - 1, 4)
             warnflag = True
+        narrowgain = (not narrow) and rng.random() < 0.12
+        if narrowgain:
+            # a whole-number gain held in a narrow numpy type (np.uint8(3), a uint8 gain map, float16) applied to counts held in a narrow
+            # type: the product does not fit the narrow types, the digital number is the product all the same
+            form, order, allow_neg, sat = rng.choice(('scalar', 'pixel')), 1, False, None
+            e = nr.integers(0, 121, size=(m, n))
+            gi = rng.randint(2, 5)
+            gdt = rng.choice((np.uint8, np.int8, np.float16))
+            if form == 'scalar':
+                gj, greal = sp.rj(Fr(gi)), gdt(gi)
+            else:
+                gj, greal = [[sp.rj(Fr(gi)) for _ in range(n)] for _ in range(m)], np.full((m, n), gi).astype(gdt)
         # electron counts arrive as floats or as integer counts of any width (a count is a count)
-        ein = e.astype(np.float16 if narrow else rng.choice((float, float, np.int64, np.int32, np.int16, np.float32)))
+        ein = e.astype(np.float16 if narrow else (rng.choice((np.uint8, np.int8, np.int16, np.float16)) if narrowgain else rng.choice((float, float, np.int64, np.int32, np.int16, np.float32))))
         # the requested output type must be able to hold the result (otherwise the cast itself is undefined behaviour)
         try:
             with warnings.catch_warnings():
